@@ -29,11 +29,14 @@ LEVELS = ["parity", "2-parity", "3-parity", "4-parity", "5-parity", "6-parity"]
 TAGS = ("error:", "parity_error:", "summary:", "fixed:", "unrecoverable:", "block_count:", "info_count:",
         "outofparity:")
 
-# model checking configurations: (cfg, workers)
-MC_QUICK = [("IoRing_small.cfg", 5), ("IoRing_small_out.cfg", 4), ("IoRing_small_scrub.cfg", 3),
-            ("IoRing_small_n4.cfg", 2), ("IoRing_small_mono.cfg", 1)]
-MC_THOROUGH = [("IoRing_med.cfg", 6), ("IoRing_med_out.cfg", 4), ("IoRing_med_scrub.cfg", 3),
-               ("IoRing_med_n5.cfg", 2), ("IoRing_small_mono.cfg", 1)]
+# model checking configurations: phases run one after the other, the (cfg, workers) of a phase in parallel.
+# Liveness checking in TLC scales poorly with workers, so the configurations with the Termination property
+# share the 16 cores; the larger safety-only configurations follow with all workers.
+MC_QUICK = [[("IoRing_small.cfg", 5), ("IoRing_small_out.cfg", 4), ("IoRing_small_scrub.cfg", 3),
+             ("IoRing_small_n4.cfg", 2), ("IoRing_small_mono.cfg", 1)]]
+MC_THOROUGH = [[("IoRing_med.cfg", 6), ("IoRing_med_out.cfg", 3), ("IoRing_med_scrub.cfg", 2), ("IoRing_med_n5.cfg", 2),
+                ("IoRing_med_r3.cfg", 1), ("IoRing_small_mono.cfg", 1), ("IoRing_small.cfg", 1)],
+               [("IoRing_safe_w2.cfg", 16)], [("IoRing_safe_n4w2.cfg", 16)]]
 # every action of the model must have been taken by at least one configuration (thorough: -coverage 1)
 ACTIONS = ["RTaskBegin", "RTaskEnd", "RExitB", "RTakeB", "RSignal", "RWaitB", "WTaskBegin", "WTaskEnd", "WTakeB",
            "WSignal", "WExitB", "WWaitB", "ReadNext", "MBroadcastR", "CallerGotB", "CallerWaitReadB",
@@ -83,11 +86,23 @@ def snap_args(binary, root, cache, cmd, log):
             "--test-io-cache", str(cache)] + cmd
 
 
-def run_snap(binary, root, cache, cmd, log, trace=None, yseed=None, sigint_after=None, outside=False):
-    """returns (rc, timed_out, stdout+stderr)"""
+SHIM = [None]
+T_BASE, T_RUN = 1700000000, 1700100000     # frozen clock of the base syncs / of the compared runs
+
+
+def run_snap(binary, root, cache, cmd, log, trace=None, yseed=None, sigint_after=None, outside=False, now=T_RUN):
+    """returns (rc, timed_out, stdout+stderr).  The clock is frozen by the LD_PRELOAD shim (time() only;
+    nothing is traced or injected) so that the info times recorded in the content files are comparable."""
     env = dict(os.environ)
     env.pop("SNAPRAID_VERIF_IOTRACE", None)
     env.pop("SNAPRAID_VERIF_YIELD", None)
+    for k in list(env):
+        if k.startswith("VSHIM_"):
+            env.pop(k)
+    if SHIM[0]:
+        env["LD_PRELOAD"] = SHIM[0]
+        env["VSHIM_TIME"] = str(now)
+        env["VSHIM_STATFS"] = "1"
     if trace:
         env["SNAPRAID_VERIF_IOTRACE"] = trace
     if yseed is not None:
@@ -127,7 +142,7 @@ def build_prestate(binary, sc, root):
     write_conf(root, sc.nd, sc.np)
     for rel, data in sc.base:
         put(root, rel, data)
-    rc, to, out = run_snap(binary, root, 1, ["sync"], os.path.join(root, "log-base"))
+    rc, to, out = run_snap(binary, root, 1, ["sync"], os.path.join(root, "log-base"), now=T_BASE)
     if rc != 0:
         raise vlib.ToolFailure("base sync of scenario %s failed rc=%s\n%s" % (sc.name, rc, out))
     os.remove(os.path.join(root, "log-base"))
@@ -148,14 +163,12 @@ def sha(path):
 
 
 def norm_content(path, tbase):
-    """content file with the run dependent fields removed: info times become 'old'/'new' relative to the
-    pre-state, free/total space, inode numbers and the CRC are dropped. Falls back to sha256 of the raw
-    bytes minus nothing if the decoder is missing (then only exact equality can be required)."""
+    """content file with the run dependent fields removed: free/total space, inode numbers (every run works on
+    its own copy of the pre-state), parity directory and the CRC.  Info times are kept: the clock is frozen."""
     cs = content_mod.load(path)
     for k in ("crc", "info_oldest", "info_runs", "order"):
         cs.pop(k, None)
-    cs["info"] = [None if e is None else ("new" if e["t"] > tbase else "old", e["bad"], e["rehash"], e["justsynced"])
-                  for e in cs["info"]]
+    cs["info"] = [None if e is None else (e["t"], e["bad"], e["rehash"], e["justsynced"]) for e in cs["info"]]
     for m in cs.get("maps", []):
         m.pop("total", None), m.pop("free", None)
     for p in cs.get("parity", []):
@@ -229,7 +242,8 @@ class TraceCheck:
 
 def tlc_trace(path, tag):
     """validate one ndjson file (one or more executions with equal headers) against IoRingTrace"""
-    res = vlib.run_tlc("IoRingTrace", cfg="IoRingTrace.cfg", workers=1, env={"TRACE": path}, timeout=900,
+    res = vlib.run_tlc("IoRingTrace", cfg="IoRingTrace.cfg", workers=1, timeout=900,
+                       env={"TRACE": path, "JAVA_TOOL_OPTIONS": "-XX:ParallelGCThreads=2 -XX:CICompilerCount=2"},
                        xmx="2g", tag=tag)
     o = res.out
     if "Model checking completed. No error has been found." in o:
@@ -246,9 +260,12 @@ def tlc_trace(path, tag):
 
 
 def write_ndjson(path, events):
+    """the trace file for IoRingTrace, and <path>.hdr = one-line copy of the header record (see IoRingTrace.tla)"""
     with open(path, "w") as f:
         for e in events:
             f.write(json.dumps(e) + "\n")
+    with open(path + ".hdr", "w") as f:
+        f.write(json.dumps(events[0]) + "\n")
 
 
 # ---------------------------------------------------------------------------------------
@@ -301,19 +318,41 @@ def make_scenarios(seed, big=True):
         os.utime(p, ns=(st.st_atime_ns, st.st_mtime_ns))
         os.remove(os.path.join(root, "d3/d"))
     S.append(Scenario("scrub-full-3d2p-errors", 3, 2, base4, e4, ["-p", "full", "scrub"], expect_rc=(1,)))
+
+    # S5: sync over 12 stripes with two silent errors each (synced blocks whose data rotted) next to a changed block:
+    # the failed-block list has three entries, is filled in arrival order of the readers and must be sorted
+    # before raid_rec (sync.c "because with threads it may be in any order"); 3 disks, 3 parities
+    base5 = [("d1/a", rbytes(seed * 100 + 60, 12 * kb)), ("d2/b", rbytes(seed * 100 + 61, 12 * kb)),
+             ("d3/c", rbytes(seed * 100 + 62, 12 * kb)),
+             ("d1/keep", rbytes(seed * 100 + 63, 100)), ("d2/keep", rbytes(seed * 100 + 65, 100)),
+             ("d3/keep", rbytes(seed * 100 + 66, 100))]
+
+    def e5(root):
+        for rel in ("d1/a", "d2/b"):
+            p = os.path.join(root, rel)
+            st = os.stat(p)
+            with open(p, "r+b") as f:
+                for blk in range(12):
+                    f.seek(blk * kb + 11)
+                    f.write(b"rotten")
+            os.utime(p, ns=(st.st_atime_ns, st.st_mtime_ns))
+        put(root, "d3/c", rbytes(seed * 100 + 64, 12 * kb), 1600000300)
+    S.append(Scenario("sync-silent-3d3p", 3, 3, base5, e5, ["sync"], expect_rc=(1,)))
     return S
 
 
 # ---------------------------------------------------------------------------------------
 
 def model_check(v, tier, cov):
-    cfgs = MC_QUICK if tier == "quick" else MC_THOROUGH
+    phases = MC_QUICK if tier == "quick" else MC_THOROUGH
     t0 = time.time()
-    with ThreadPoolExecutor(max_workers=len(cfgs)) as ex:
-        futs = [(cfg, ex.submit(lambda cfg=cfg, w=w: vlib.run_tlc(
-            "IoRing", cfg=cfg, workers=w, timeout=3000, xmx="6g", coverage=(tier == "thorough"), tag="C13-" + cfg)))
-            for cfg, w in cfgs]
-        results = [(cfg, f.result()) for cfg, f in futs]
+    results = []
+    for cfgs in phases:
+        with ThreadPoolExecutor(max_workers=len(cfgs)) as ex:
+            futs = [(cfg, ex.submit(lambda cfg=cfg, w=w: vlib.run_tlc(
+                "IoRing", cfg=cfg, workers=w, timeout=3000, xmx="6g", coverage=(tier == "thorough"), tag="C13-" + cfg)))
+                for cfg, w in cfgs]
+            results += [(cfg, f.result()) for cfg, f in futs]
     states = trans = 0
     taken = {}
     for cfg, r in results:
@@ -327,7 +366,8 @@ def model_check(v, tier, cov):
         for a, (n, _) in r.coverage.items():
             taken[a] = taken.get(a, 0) + n
         cov["model_configs"].append({"cfg": cfg, "distinct": r.distinct, "generated": r.generated, "depth": r.depth,
-                                     "wall_s": round(r.wall, 1), "liveness": "Termination under FairSpec"})
+                                     "wall_s": round(r.wall, 1),
+                                     "liveness": "Termination under FairSpec" if "_safe_" not in cfg else "none (safety only)"})
         print("  model %-26s %9d distinct %10d generated depth %3d  %.0fs" % (cfg, r.distinct, r.generated, r.depth, r.wall))
     if tier == "thorough":
         never = [a for a in ACTIONS if taken.get(a, 0) == 0]
@@ -356,9 +396,10 @@ def _run(tier):
     if content_mod is None:
         raise vlib.ToolFailure("harness/py/content.py (independent content decoder) is required")
     binary = vlib.build("hooks")
+    SHIM[0] = vlib.build_shim()
     seed = vlib.seed()
     rnd = random.Random(seed)
-    nseeds = 1 if tier == "quick" else 8
+    nseeds = 2 if tier == "quick" else 8
     scratch = vlib.scratch_root()
     try:
         # (a) the model, in the background of nothing: run first, it is the long part
@@ -381,10 +422,6 @@ def _run(tier):
             build_prestate(binary, sc, pre)
             pres[sc.name] = pre
             tbase[sc.name] = max_info_time(os.path.join(pre, "c1", "content"))
-        # the traced runs must happen in a later second than the base syncs ('old' / 'new' info times)
-        wait = max(tbase.values()) + 1.2 - time.time()
-        if wait > 0:
-            time.sleep(wait)
 
         tdir = os.path.join(scratch, "traces")
         os.makedirs(tdir)
@@ -478,6 +515,21 @@ def _run(tier):
         # suspects: (run, description, context) - everything that is not a complete accepted trace
         suspects = []
         hangs = 0
+        def prefix_info(r):
+            """what IoRingTrace says about the (truncated) trace of a run that hung or crashed"""
+            try:
+                execs = load_trace(r["trace"])
+                if not execs:
+                    return ""
+                p2 = os.path.join(tdir, r["id"] + ".prefix.ndjson")
+                write_ndjson(p2, execs[-1])
+                tc = tlc_trace(p2, "C13-trace-prefix")
+                if tc.ok or tc.invariant == "LastIsDone":
+                    return "; the %d records it logged are a prefix of a behaviour of IoRing" % len(execs[-1])
+                return "; trace prefix: " + describe(tc, tc.line, execs[-1])
+            except vlib.ToolFailure:
+                return ""
+
         for r in runs + iruns:
             ab = abnormal(r)
             if ab:
@@ -549,7 +601,7 @@ def _run(tier):
                     break          # enough for this group; the rest is not counted as validated
             return accepted, failed
 
-        with ThreadPoolExecutor(max_workers=5) as ex:
+        with ThreadPoolExecutor(max_workers=8) as ex:
             gres = list(ex.map(check_group, list(enumerate(groups.items()))))
         validated = sum(a for a, _ in gres)
         for _, failed in gres:
@@ -575,6 +627,8 @@ def _run(tier):
                 if prob2:
                     rejected += 1
                     kind = "termination" if r["timeout"] else "trace"
+                    if abnormal(r):
+                        what += prefix_info(r)
                     v.violation("%s: %s with --test-io-cache %d, yield seed %d%s: %s  [second recording: %s]"
                                 % (kind, r["scenario"], r["cache"], r["yseed"], " (signal outside)" if r["outside"] else "",
                                    what, prob2),
@@ -652,7 +706,7 @@ def _run(tier):
             "io_mutex is represented by the atomicity of the IoRing actions (each = the code between lock and unlock/cond_wait)",
             "wake-ups are not observable in a trace: a step logged by a thread is taken as evidence that it was woken",
             "writer errors reported to the caller are excluded from Deterministic (known defect F4, see IoRing_errors.cfg)",
-            "content files are compared modulo info times (old/new), free space, inode numbers and CRC",
+            "content files are compared modulo free space, inode numbers, parity directory and CRC; the clock is frozen by the LD_PRELOAD shim (time() only)",
             "hook H1 (cmdline/io.c under SNAPRAID_VERIF) is trusted to log what it executes"])
     finally:
         shutil.rmtree(scratch, ignore_errors=True)
